@@ -342,6 +342,10 @@ theorem step_nodes_inv (s : State) (op : Op) (h : LInvS s) (y : Res State) (e : 
   | aget v i => exact liftA_inv s v _ h y (ite_some e)
   | afront v => exact liftA_inv s v _ h y (ite_some e)
   | aback v => exact liftA_inv s v _ h y (ite_some e)
+  | aeq v w =>
+    have := ite_some e
+    simp only [Option.some.injEq] at this
+    rw [← this]; exact h
 
 theorem run_nodes_inv (ops : List Op) : ∀ (s : State), LInvS s → LInvS (run s ops) := by
   induction ops with
